@@ -114,24 +114,23 @@ Ltac leftover := unfold leftover_at; split; [exact ex_fs_wf|]; split; [vm_comput
 (* Shapes (a) "ConfirmDir fails right after Mkdir(newDir)" and (b) "MkdirAll(dst) fails" were
    repaired in /repo by d268200: both now clean up.  Regression examples on the same inputs: *)
 Example repaired_a :
-  snd (ex_run (Some 3)) = OExn XErr /\ exists_path (w_fs (fst (ex_run (Some 3)))) ex_nd = false.
+  snd (ex_run (Some 4)) = OExn XErr /\ exists_path (w_fs (fst (ex_run (Some 4)))) ex_nd = false.
 Proof. vm_compute. split; reflexivity. Qed.
 Example repaired_b :
-  snd (ex_run (Some 4)) = OExn XErr /\ exists_path (w_fs (fst (ex_run (Some 4)))) ex_nd = false.
+  snd (ex_run (Some 5)) = OExn XErr /\ exists_path (w_fs (fst (ex_run (Some 5)))) ex_nd = false.
 Proof. vm_compute. split; reflexivity. Qed.
 
 (* (c) CleanedAbs fails inside cleanedRelativePath: log.Fatalf, the process exits *)
-Lemma leftover_3 : leftover_at 7 XFatal.
+Lemma leftover_3 : leftover_at 8 XFatal.
 Proof. leftover. Qed.
-(* (d) ConfirmDir fails inside localizeRoot: log.Panicf *)
-Lemma leftover_4 : leftover_at 18 XPanic.
-Proof. leftover. Qed.
+(* (d) ConfirmDir fails inside localizeRoot: log.Panicf — repaired in /repo by 113a8f3 (deferred
+   recover in Run): the panic is still raised, but the destination is cleaned up first *)
+Example repaired_d :
+  snd (ex_run (Some 19)) = OExn XPanic /\ exists_path (w_fs (fst (ex_run (Some 19)))) ex_nd = false.
+Proof. vm_compute. split; reflexivity. Qed.
 
 Lemma all_or_nothing_refuted_3 : exists i, leftover_at i XFatal.
-Proof. exists 7. exact leftover_3. Qed.
-Lemma all_or_nothing_refuted_4 : exists i, leftover_at i XPanic.
-Proof. exists 18. exact leftover_4. Qed.
-
+Proof. exists 8. exact leftover_3. Qed.
 Lemma all_or_nothing_law_false : ~ all_or_nothing_law.
 Proof. exact (leftover_refutes _ _ leftover_3). Qed.
 
@@ -146,15 +145,17 @@ Example ex_success :
   lookup ["new"; "t"; "p.yaml"] (w_fs (fst (ex_run None))) = Some (EFile (CRaw 7)).
 Proof. vm_compute. repeat split; reflexivity. Qed.
 
-(* the hypotheses of all_or_nothing_partial are met by a fault on ReadFile(dep.yaml) (index 11),
+(* the hypotheses of all_or_nothing_partial are met by a fault on ReadFile(dep.yaml) (call 12),
    and by the early ones (3: ConfirmDir of newDir, 4: MkdirAll(dst)) *)
 Example ex_partial_hyps :
   exists_path ex_fs ex_nd = false /\
-  snd (ex_run (Some 11)) = OExn XErr /\
-  removes_okb (w_trace (fst (ex_run (Some 11)))) = true /\
-  removes_okb (w_trace (fst (ex_run (Some 3)))) = true /\
+  snd (ex_run (Some 12)) = OExn XErr /\
+  snd (ex_run (Some 19)) = OExn XPanic /\
+  removes_okb (w_trace (fst (ex_run (Some 19)))) = true /\
+  removes_okb (w_trace (fst (ex_run (Some 12)))) = true /\
   removes_okb (w_trace (fst (ex_run (Some 4)))) = true /\
-  exists_path (w_fs (fst (ex_run (Some 11)))) ex_nd = false.
+  removes_okb (w_trace (fst (ex_run (Some 5)))) = true /\
+  exists_path (w_fs (fst (ex_run (Some 12)))) ex_nd = false.
 Proof. vm_compute. repeat split; reflexivity. Qed.
 
 (* the hypotheses of loc_file_copies are met: a reference that needs cleaning is copied and rewritten *)
@@ -166,7 +167,7 @@ Example ex_loc_file :
   lookup ["new"; "t"; "dep.yaml"] (w_fs (fst r)) = Some (EFile (CRaw 4)).
 Proof. vm_compute. split; reflexivity. Qed.
 
-(* the hypothesis of nothing_created_nothing_left is met by a fault on Mkdir("/new") (index 2) *)
+(* the hypothesis of nothing_created_nothing_left is met by a fault on Mkdir("/new") (call 3) *)
 Definition quiet_evb (e : event) : bool :=
   (if mutating (ev_op e) then negb (ev_ok e) else true) &&
   (if opcode_is_remove (ev_op e) then String.eqb (ev_path e) "" || negb (ev_ok e) else true).
@@ -181,11 +182,11 @@ Proof.
 Qed.
 
 Example ex_early :
-  snd (ex_run (Some 2)) = OExn XErr /\ Forall quiet_ev (w_trace (fst (ex_run (Some 2)))).
+  snd (ex_run (Some 3)) = OExn XErr /\ Forall quiet_ev (w_trace (fst (ex_run (Some 3)))).
 Proof.
   split; [vm_compute; reflexivity|].
   apply Forall_forall. intros e Hin. apply quiet_evb_spec.
-  assert (F : forallb quiet_evb (w_trace (fst (ex_run (Some 2)))) = true) by (vm_compute; reflexivity).
+  assert (F : forallb quiet_evb (w_trace (fst (ex_run (Some 3)))) = true) by (vm_compute; reflexivity).
   rewrite forallb_forall in F. auto.
 Qed.
 
@@ -224,18 +225,10 @@ Example ex2_success :
   lookup ["new"; "t"; "charts"; "app"; "crds"] (w_fs (fst (ex2_run None))) = Some EDir.
 Proof. vm_compute. repeat split; reflexivity. Qed.
 
-(* (e) ConfirmDir fails inside copyChartHome: log.Panicf, the partial copy stays *)
-Lemma leftover_5 :
-  fs_wf ex2_fs /\
-  exists_path ex2_fs ex_nd = false /\
-  snd (ex2_run (Some 23)) = OExn XPanic /\
-  (forall e, In e (w_trace (fst (ex2_run (Some 23)))) -> ev_op e = ORemoveAll -> ev_ok e = true) /\
-  exists_path (w_fs (fst (ex2_run (Some 23)))) ex_nd = true.
-Proof.
-  split; [apply fs_wfb_spec; vm_compute; reflexivity|]. split; [vm_compute; reflexivity|].
-  split; [vm_compute; reflexivity|]. split; [apply removes_okb_spec; vm_compute; reflexivity|].
-  vm_compute; reflexivity.
-Qed.
+(* (e) ConfirmDir fails inside copyChartHome: log.Panicf — repaired by 113a8f3 as well *)
+Example repaired_e :
+  snd (ex2_run (Some 25)) = OExn XPanic /\ exists_path (w_fs (fst (ex2_run (Some 25)))) ex_nd = false.
+Proof. vm_compute. split; reflexivity. Qed.
 
 (* corpus/C18/helm-values-inside-home.json: the values file lives inside the chart home *)
 Definition ex3_kust : kust :=
